@@ -82,6 +82,13 @@ def run_cm(h, sc, ec, P, N, thr):
                 h.And(h.eq(g[0], tp), h.eq(g[1], fn), h.eq(g[2], fp), h.eq(g[3], tn)))
         h.check("TP+FN and FP+TN independent of threshold", h.And(h.eq(g[0] + g[1], P + kp), h.eq(g[2] + g[3], N + kn)))
     h.check("binary flag", cm.binary is True)
+    # the same query again on the same object (equal threshold array, fresh array object): results must not drift
+    T2, ts2, _ = (h.np.asarray(h.cells(T)).reshape(shape) if shape else T), ts, shape
+    cells2 = h.cells(S.cm(T2).matrix)
+    for j, t in enumerate(ts):
+        tp, fn, fp, tn = oracle_cm(h, pos, neg, kp, kn, t, sc, ec)
+        g = cells2[4 * j:4 * j + 4]
+        h.check("repeated call with an equal threshold array: cells still equal counting", h.And(h.eq(g[0], tp), h.eq(g[1], fn), h.eq(g[2], fp), h.eq(g[3], tn)))
 
 
 def run_rates(h, sc, ec, P, N):
@@ -167,3 +174,19 @@ def regressions(h):
                 if m[j].tolist() != [[tp + 2, len(pos) - tp], [fp, len(neg) - fp + 3]]:
                     bad.append((dt.__name__, sc, ec, float(t)))
     h.check("[dtype sweep] cm = counting for float32 / int64 / float64 scores with float64 thresholds", not bad)
+    # dense threshold grids (hundreds of thresholds, many exactly equal to a score) against few scores, twice on one object
+    bad2 = []
+    pos, neg = np.array([0.5, 1.0, 1.0, 2.5, 3.0]), np.array([0.0, 1.0, 2.0, 2.5])
+    grid = np.concatenate([np.linspace(-1, 4, 401), pos, neg, [np.inf, -np.inf]])
+    for shape in ((-1,), (3, -1)):
+        T = grid[: (len(grid) // 3) * 3].reshape(shape) if shape != (-1,) else grid
+        for sc, ec in CFGS:
+            S = h.sa.Scores(pos, neg, nb_easy_pos=1, nb_easy_neg=4, score_class=sc, equal_class=ec)
+            for rep in range(2):
+                m = S.cm(T).matrix.reshape(-1, 2, 2)
+                for j, t in enumerate(T.reshape(-1)):
+                    acc = {("pos", "pos"): lambda s: s >= t, ("pos", "neg"): lambda s: s > t, ("neg", "pos"): lambda s: s <= t, ("neg", "neg"): lambda s: s < t}[(sc, ec)]
+                    tp, fp = int(acc(pos).sum()), int(acc(neg).sum())
+                    if m[j].tolist() != [[tp + 1, len(pos) - tp], [fp, len(neg) - fp + 4]]:
+                        bad2.append((sc, ec, rep, float(t)))
+    h.check("[dense grid sweep] cm = counting on 400+ thresholds incl. exact ties, also on a repeated call", not bad2)
